@@ -210,8 +210,12 @@ class Oracles:
     def op_cancel(self, op: dict, ctx: dict) -> None:
         w, X = self.w, self.L.exceptions
         pm = self.pm_of(op)  # type: ignore[attr-defined]
-        ids = [self.resolve_tid(pm, ref) for ref in op.get("refs", [])]  # type: ignore[attr-defined]
         me = ctx.get("task")
+        # ["self", k]: the id of the task that makes the call (a worker or one of its callbacks); elsewhere like ["run", k]
+        ids = [me.tid if (ref[0] == "self" and me is not None and me.pm is pm) else self.resolve_tid(pm, ["run", ref[1]] if ref[0] == "self" else ref)  # type: ignore[attr-defined]
+               for ref in op.get("refs", [])]
+        if me is not None and any(ref[0] == "self" for ref in op.get("refs", [])) and me.live:
+            w.label("cancel:own-id-from-inside-the-worker")
         if me is not None and me.pm is pm and me.live and me.tid in ids and not ctx.get("suspends_later"):
             ids = [i for i in ids if i != me.tid]   # self-cancellation without a later suspension point: excluded (DESIGN 6)
         self.ops_seen.add("cancel")
@@ -1063,6 +1067,22 @@ class Oracles:
                     if set(got) != want:
                         w.fail({"C10"}, "group/union-of-several-names", f"{names}: {sorted(got)} != {sorted(want)}")
                     w.label("group:union-query")
+            # ... and an unknown name anywhere among known ones (first, last, in between) makes the whole query raise
+            if names and not pm.closed:
+                unknown = "no-such-group-%d" % len(pm.reqs)
+                dead = [r.group for r in pm.reqs if r.group and r.group not in pm.groups_live]
+                for bad in [unknown] + dead[:1]:
+                    for q in (names + [bad], [bad] + names, names[:1] + [bad] + names[1:]):
+                        try:
+                            got = pm.pool.get_group_ids(*q)
+                        except self.L.exceptions.InvalidGroupName:
+                            continue
+                        except Exception as e:
+                            w.fail({"C10"}, "group/unknown-name-among-known-wrong-error", f"{q}: {type(e).__name__}")
+                            break
+                        w.fail({"C10"}, "group/unknown-name-among-known-accepted", f"{q} -> {sorted(got)}")
+                        break
+                w.label("group:unknown-among-known-query")
             # C10 partition at idle
             for tm in pm.tasks.values():
                 rm = tm.req
